@@ -386,6 +386,7 @@ func compatCmd(a Args) {
 	}
 	boundsMatrix(s)
 	enumKindMatrix(s)
+	enumDisplayMatrix(s)
 	for i := 0; i < n/20+2; i++ {
 		recursiveGroup(s, g)
 	}
@@ -620,6 +621,50 @@ func enumKindMatrix(s *compatSink) {
 					case r.R == "ok":
 						s.finding(Finding{Prop: "C15", What: "an enum of a different base kind was accepted", Cases: []int{id}, Schema: pair[0]})
 					}
+				}
+			}
+		}
+	}
+}
+
+// enumDisplayMatrix: enums whose values carry display names (an attribute the Lean model does not
+// have): direct evaluation of the rule the code documents - for every producer value the consumer
+// must know it, and the two display names must both be absent or be equal.
+func enumDisplayMatrix(s *compatSink) {
+	name := func(n string) *schema.DisplayValue {
+		if n == "" {
+			return nil
+		}
+		if n == "-" {
+			return schema.NewDisplayValue(nil, schema.PointerTo("description only"), nil)
+		}
+		return schema.NewDisplayValue(schema.PointerTo(n), nil, nil)
+	}
+	opts := []string{"", "-", "One", "Uno"}
+	for _, a := range opts {
+		for _, b := range opts {
+			for _, kind := range []string{"string", "int"} {
+				var self, other schema.Type
+				if kind == "string" {
+					self = schema.NewStringEnumSchema(map[string]*schema.DisplayValue{"x": name(a), "y": nil})
+					other = schema.NewStringEnumSchema(map[string]*schema.DisplayValue{"x": name(b)})
+				} else {
+					self = schema.NewIntEnumSchema(map[int64]*schema.DisplayValue{1: name(a), 2: nil}, nil)
+					other = schema.NewIntEnumSchema(map[int64]*schema.DisplayValue{1: name(b)}, nil)
+				}
+				named := func(n string) bool { return n != "" && n != "-" }
+				want := (!named(a) && !named(b)) || (named(a) && named(b) && a == b)
+				var err error
+				r := hx.Guard(func() hx.Result { err = self.ValidateCompatibility(other); return hx.Result{R: "ok"} })
+				s.stats["enum-display"]++
+				what := fmt.Sprintf("%s enum, consumer display %q, producer display %q", kind, a, b)
+				switch {
+				case r.R == "panic":
+					s.finding(Finding{Prop: "C15", What: "ValidateCompatibility panicked on enums with display values: " + r.Msg, Detail: []string{what}})
+				case want && err != nil:
+					s.finding(Finding{Prop: "C15", What: "enums with compatible display names were rejected: " + err.Error(), Detail: []string{what}})
+				case !want && err == nil:
+					s.finding(Finding{Prop: "C15", What: "enums with differing display names were accepted", Detail: []string{what}})
 				}
 			}
 		}
